@@ -97,7 +97,7 @@ def mask_window(site, k, l, f, m, t, no_prss):
         B = eff_bound(1 << (l + k - 1), m, t, no_prss)
         return B // 4, 2 * d * B + 2
     if site == '_mod':
-        B = eff_bound(1 << k, m, t, no_prss)
+        B = eff_bound((1 << (k + l)) // 3, m, t, no_prss)
         return 3 * B // 8, 3 * d * B + 3
     if site == 'to_bits':
         B = eff_bound(1 << k, m, t, no_prss)
